@@ -408,10 +408,39 @@ func (a *A) placeholderConfined(fam string, pos token.Pos) {
 							switch u := r.(type) {
 							case *ssa.Phi, *ssa.MakeInterface, *ssa.ChangeType, *ssa.Convert:
 							case *ssa.Call:
-								if !(u.Call.IsInvoke() && u.Call.Method.Name() == "Evaluate") {
-									okAll = false
-									why = fmt.Sprintf("the row carrying placeholders is passed to %s in %s", TermOf(u, nil), fname(caller))
+								if u.Call.IsInvoke() && u.Call.Method.Name() == "Evaluate" {
+									continue
 								}
+								// a same-package helper that only hands its parameter to the predicate
+								if h := u.Call.StaticCallee(); h != nil && h.Blocks != nil && h.Pkg == caller.Pkg {
+									onlyEval := true
+									for i, arg := range u.Call.Args {
+										if arg != v || i >= len(h.Params) {
+											continue
+										}
+										for hv := range flowsForward(h.Params[i]) {
+											if hv.Referrers() == nil {
+												continue
+											}
+											for _, hr := range *hv.Referrers() {
+												switch hu := hr.(type) {
+												case *ssa.Phi, *ssa.MakeInterface, *ssa.ChangeType, *ssa.Convert, *ssa.DebugRef:
+												case *ssa.Call:
+													if !(hu.Call.IsInvoke() && hu.Call.Method.Name() == "Evaluate") {
+														onlyEval = false
+													}
+												default:
+													onlyEval = false
+												}
+											}
+										}
+									}
+									if onlyEval {
+										continue
+									}
+								}
+								okAll = false
+								why = fmt.Sprintf("the row carrying placeholders is passed to %s in %s", TermOf(u, nil), fname(caller))
 							case *ssa.DebugRef:
 							default:
 								okAll = false
